@@ -246,6 +246,20 @@ pub fn __vx_find_map<'a, T, U, F: Fn(&'a T) -> Option<U>>(s: &'a [T], f: F) -> (
         (forall|i: int, o: Option<U>| 0 <= i < s@.len() && #[trigger] call_ensures(f, (&s@[i],), o) ==> o == g(s@[i]))
         ==> r == #[trigger] find_map_spec(s@, g, 0)
 { s.iter().find_map(f) }
+/// the first Some-result of g over (index, element) pairs from index i on
+pub open spec fn enum_find_map_spec<T, U>(s: Seq<T>, g: spec_fn(int, T) -> Option<U>, i: int) -> Option<U>
+    decreases s.len() - i
+{
+    if i < 0 || i >= s.len() { None } else if g(i, s[i]) is Some { g(i, s[i]) } else { enum_find_map_spec(s, g, i + 1) }
+}
+/// T18 (trusted std semantics): `s.iter().enumerate().find_map(f)`, for every spec function g that describes f's results
+#[verifier::external_body]
+pub fn __vx_enumerate_find_map<'a, T, U, F: Fn((usize, &'a T)) -> Option<U>>(s: &'a [T], f: F) -> (r: Option<U>)
+    requires forall|i: int| 0 <= i < s@.len() ==> call_requires(f, ((i as usize, &#[trigger] s@[i]),)),
+    ensures forall|g: spec_fn(int, T) -> Option<U>|
+        (forall|i: int, o: Option<U>| 0 <= i < s@.len() && #[trigger] call_ensures(f, ((i as usize, &s@[i]),), o) ==> o == g(i, s@[i]))
+        ==> r == #[trigger] enum_find_map_spec(s@, g, 0)
+{ s.iter().enumerate().find_map(f) }
 /// the first index >= i at which p holds
 pub open spec fn position_spec<T>(s: Seq<T>, p: spec_fn(T) -> bool, i: int) -> Option<int>
     decreases s.len() - i
